@@ -1,11 +1,26 @@
-(* C13 — reward entitlement.  Proved: claiming is stake-neutral (no asset record and
-   no delegation's shares change, in every state, whatever the outcome).  The
-   pro-rata split, non-retroactivity and idempotence are checked by check_C13 on
-   implementation traces (nothing claimable right after a claim / for a new
-   position) and by exact correspondence of indices, histories and payouts (partial). *)
+(* C13 — reward entitlement.  Proved:
+   - claiming is stake-neutral (no asset record and no delegation's shares change, in every
+     state, whatever the outcome);
+   - not retroactive for new stake: a position created by a delegation starts with nothing to claim
+     (C13_new_position_has_nothing_to_claim, every reachable state), and so does a position that
+     was topped up (C13_topped_up_position_has_nothing_to_claim): it is settled first;
+   - idempotence: in every reachable state, right after a successful claim the position has
+     nothing to claim — an immediate second claim pays nothing (C13_nothing_claimable_after_claim).
+     The proof rests on an invariant of all reachable states, that every validator's reward history
+     has unique (reward denom, alliance) keys (C13_histories_have_unique_keys: induction through the
+     whole keeper model, copies in memory tracked), and on the algebra of accumulateRewards.
+     Side condition: no reward-weight snapshot of this validator and asset at the current height
+     (a weight change earlier in the same block): then the claim replays that snapshot against the
+     delegation's new history; that it adds nothing needs monotonicity of the indices, not proved.
+   The pro-rata split and non-retroactivity are checked by check_C13 on implementation traces
+   (nothing claimable right after a claim, for a new position, or for a position just topped
+   up / reduced / redelegated) and by exact correspondence of indices, histories and payouts
+   (partial). *)
 From Coq Require Import ZArith List Bool.
 From Alliance Require Import Num KMap Types Monad Model Step Spec Hoare.
-From Alliance.Proofs Require Import Frames.
+From Alliance.Proofs Require Import Frames Idempotent.
+From Alliance Require Import WitnessLib.
+From Alliance.Witness Require Import D_C12_dust_position_topup.
 Import ListNotations.
 Open Scope Z_scope.
 
@@ -17,3 +32,70 @@ Theorem C13_claim_changes_no_shares : forall s del v dn,
   share_view (fst (step s (OClaim del v dn))) = share_view s.
 Proof. exact claim_changes_no_delegation_shares. Qed.
 Print Assumptions C13_claim_changes_no_shares.
+
+(* every validator's reward history has unique (reward denom, alliance denom) keys, in every reachable state *)
+Theorem C13_histories_have_unique_keys : forall h v vi,
+  kget (valinfos (run init_state h)) [v] = Some vi -> NoDup (map rkey (vi_hist vi)).
+Proof. exact histories_have_unique_keys. Qed.
+Print Assumptions C13_histories_have_unique_keys.
+
+(* idempotence: after a successful claim nothing is claimable by that position *)
+Theorem C13_nothing_claimable_after_claim : forall h del v dn s', let s := run init_state h in
+  msg_claim del v dn s = Ok tt s' ->
+  match kget (delegations s') [del; v; dn] with
+  | Some d' => no_later_snapshot s' v d' dn -> claimable s' [del; v; dn] d' = []
+  | None => True
+  end.
+Proof. exact nothing_claimable_after_claim. Qed.
+Print Assumptions C13_nothing_claimable_after_claim.
+
+(* not retroactive: a position that did not exist starts with nothing to claim, whatever its validator
+   had accrued before (even rewards not yet withdrawn from the distribution module: the validator is
+   settled first and the new position starts from the settled history) *)
+Theorem C13_new_position_has_nothing_to_claim : forall h del v dn amt s', let s := run init_state h in
+  kget (delegations s) [del; v; dn] = None ->
+  msg_delegate del v dn amt s = Ok tt s' ->
+  match kget (delegations s') [del; v; dn] with
+  | Some d' => no_later_snapshot s' v d' dn -> claimable s' [del; v; dn] d' = []
+  | None => True
+  end.
+Proof. exact new_position_has_nothing_to_claim. Qed.
+Print Assumptions C13_new_position_has_nothing_to_claim.
+
+(* ... nor on the stake added to an existing position: the position is settled first (what had accrued
+   is paid on the old stake) and nothing is claimable on the grown position *)
+Theorem C13_topped_up_position_has_nothing_to_claim : forall h del v dn amt d s', let s := run init_state h in
+  kget (delegations s) [del; v; dn] = Some d ->
+  (forall a, kget (assets s) [dn] = Some a -> rewards_started a (now s) = true) ->
+  msg_delegate del v dn amt s = Ok tt s' ->
+  match kget (delegations s') [del; v; dn] with
+  | Some d' => no_later_snapshot s' v d' dn -> claimable s' [del; v; dn] d' = []
+  | None => True
+  end.
+Proof. exact topped_up_position_has_nothing_to_claim. Qed.
+Print Assumptions C13_topped_up_position_has_nothing_to_claim.
+
+(* the entitlement of any position whose history is its validator's current one is nothing *)
+Theorem C13_settled_position_has_nothing_to_claim : forall s v d vi a,
+  rh_uniq (vi_hist vi) -> rh_by_alliance (d_hist d) (a_denom a) = rh_by_alliance (vi_hist vi) (a_denom a) ->
+  no_later_snapshot s v d (a_denom a) ->
+  calculate_delegation_rewards s v d vi a = ([], rh_by_alliance (vi_hist vi) (a_denom a)).
+Proof. exact settled_position_has_nothing_to_claim. Qed.
+Print Assumptions C13_settled_position_has_nothing_to_claim.
+
+(* non-vacuity: in the directed history executed on the real application (corpus
+   D_C12_dust_position_topup) the large holder's claim pays 1 499 999 and leaves nothing claimable,
+   with no snapshot in the way *)
+Example C13_nonvacuous :
+  match final_state (firstn 42 ops_D_C12_dust_position_topup) with
+  | Some s =>
+    match msg_claim 100 10 2 s with
+    | Ok _ s' => bal s' 100 9 - bal s 100 9 = 1499999 /\
+                 match kget (delegations s') [100; 10; 2] with
+                 | Some d' => claimable s' [100; 10; 2] d' = [] /\ no_later_snapshot s' 10 d' 2
+                 | None => False end
+    | _ => False
+    end
+  | None => False
+  end.
+Proof. vm_compute. repeat split; reflexivity. Qed.
